@@ -676,6 +676,26 @@ Fixpoint in_domain (v : value) {struct v} : bool :=
   | VTxt _ _ => false
   end.
 
+(* every well-formed data value: as in_domain, without the two exclusions (min-int64, floats that print like
+   integers).  The round trip stated over all_data is the FULL claim; it is refuted on exactly those two. *)
+Fixpoint all_data (v : value) {struct v} : bool :=
+  match v with
+  | VInt z => in_int64 z
+  | VFloat f => fl_canonical f
+  | VBool _ | VNil => true
+  | VStr s => quote_in_domain s && forallb (fun c => c <? 256) s
+  | VArr l => forallb all_data l
+  | VMap l =>
+    keys_sorted l &&
+    (fix go (ps : list (value * value)) : bool :=
+       match ps with
+       | [] => true
+       | (k, x) :: r =>
+         all_data k && (match equals k k with Val true => true | _ => false end) && all_data x && go r
+       end) l
+  | VTxt _ _ => false
+  end.
+
 (* the part without finite floats (infinities and NaN are allowed: they print as identifiers), for which the
    round trip is proved for every value *)
 Fixpoint no_finite_float (v : value) {struct v} : bool :=
